@@ -355,6 +355,12 @@ class Gen:
                 exts.append(model.Extension(f"e{ti}_{j}", t, v))
             elems.append(model.Range(f"r{ti}", t, cands[0], cands[-1]))
             elems.append(model.Range(f"rmin{ti}", t, cands[len(cands) // 2], None))
+        if "sub_ms" not in self.avoid:
+            # fractional seconds: a few hundred microsecond values (readers that go through binary floating point are off by
+            # one microsecond for about 1 % of them)
+            for j in range(300):
+                us = (j * 3331 + 249) % 10 ** 6
+                elems.append(model.Property(f"frac{j}", datetime.time, datetime.time(j % 24, (j * 7) % 60, (j * 11) % 60, us)))
         holder = model.Capability("holder", qualifier=quals, extension=exts)
         sm = model.Submodel("https://example.org/sm/sweep", submodel_element=elems + [holder])
         st = model.DictObjectStore()
@@ -376,7 +382,7 @@ class Gen:
         r = self.rng
         keys = [self.key(True)] + [self.key(False) for _ in range(r.randint(0, 2))]
         # AASd-124: last key of external ref is generic globally identifiable or generic fragment
-        rs = self.ref(depth - 1) if depth > 0 and r.random() < 0.2 else None
+        rs = self.ref(depth - 1) if depth > 0 and r.random() < (0.2 if depth == 1 else 0.9) else None
         return model.ExternalReference(tuple(keys), rs)
 
     LAST_KEY_TYPES = [model.KeyTypes.PROPERTY, model.KeyTypes.FILE, model.KeyTypes.SUBMODEL_ELEMENT_COLLECTION,
@@ -403,10 +409,12 @@ class Gen:
             # AASd-127: a FragmentReference key follows a File or Blob key
             if n and keys[-1].type in (model.KeyTypes.FILE, model.KeyTypes.BLOB) and r.random() < 0.4:
                 keys.append(model.Key(model.KeyTypes.FRAGMENT_REFERENCE, self.id_short()))
-        rs = self.ref(depth - 1) if depth > 0 and r.random() < 0.2 else None
+        rs = self.ref(depth - 1) if depth > 0 and r.random() < (0.2 if depth == 1 else 0.9) else None
         return model.ModelReference(tuple(keys), type_, rs)
 
     def ref(self, depth=1):
+        if depth == 1 and self.rng.random() < 0.15:
+            depth = self.rng.choice([2, 3])          # chains of referred semantic ids (each level is drawn with p = 0.2 ... 1)
         return self.ext_ref(depth) if self.rng.random() < 0.6 else self.model_ref(None, depth)
 
     # ---- non-referable helper classes
